@@ -3,7 +3,7 @@ from collections import OrderedDict as OD
 
 CONTRACTS = {
     'helpers.knot_insertion_kv': dict(
-        props=['C04'],
+        props=['C04', 'C06', 'C07'],
         args=OD([('knotvector', ('list', 'real')), ('u', 'real'), ('span', 'int'), ('r', 'int')]),
         returns=('list', 'real'),
         requires=['r >= 0', 'span >= 0', 'span + 1 <= len(knotvector)'],
